@@ -231,7 +231,7 @@ def _measure(ctx, case, linker, checks, sel):
 def run_shard(ctx):
     Sub, Linker = classes()
     rng = ctx.rng('c08')
-    count = ctx.pick(300, 5000)
+    count = ctx.pick(1000, 20000)
     for i in range(count):
         k = rng.choice([0, 1, 1, 2, 2, 3, 4])
         keys = rng.sample(['a', 'b', 'c', 'd', 5, ('x', 1)], k)
@@ -359,7 +359,7 @@ def single_model_twin(ctx):
         if not ctx.mine(k):
             continue
         Model = fsic.build_model(fsic.parse_model(script))
-        for rep in range(ctx.pick(8, 80)):
+        for rep in range(ctx.pick(20, 200)):
             n = 6
             data = {}
             for nm in Model.NAMES:
